@@ -16,16 +16,16 @@ LEVEL_TEXT = ('Lean 4 theorems, for all shapes, masks, amplitudes and OPDs: a su
               'add up to the phasor of the global mask, also with overlapping bounding boxes; a plane multiplies the summed embedding by its '
               'transmission, so chains of planes give the same total field for both descriptions; propagate_dft is additive in the embedded '
               'field; intensity is the squared modulus of the coherent sum; composed end to end (segmented_eq_monolithic_end_to_end): fresh wavefront, '
-              'a fresh wavefront through any non-empty chain of array-masked partitioned planes, then propagate_dft as the driver models it (generated window block and shapes, a tilt shift common to all fields, optional output mask: segmented_eq_monolithic_propagateDft) -> equal Wavefront.field and intensity at every sample; well-formedness follows from the masks alone for constructed planes (splitPlane_wf_of_masks). The NumPy plumbing is a hand model checked against the '
+              'a fresh wavefront through any non-empty chain of array-masked partitioned planes, then propagate_dft as the driver models it (generated window block and shapes, a tilt shift common to all fields, optional output mask: segmented_eq_monolithic_propagateDft) -> equal Wavefront.field and intensity at every sample; well-formedness follows from the masks alone for constructed planes (splitPlane_wf_of_masks); Tilt planes anywhere in the chain and Wavefront(tilt=) as ONE theorem (segmented_eq_monolithic_interleaved: every field carries each Tilt once, data unchanged); through propagate_fft by composition with C09 (segmented_eq_monolithic_propagate_fft); chain_exp: the explicit product of amplitude*exp(2 pi i opd/lambda) over the planes. The NumPy plumbing is a hand model checked against the '
               'implementation, with both descriptions run on the real code.')
 LEVEL_NOTE = ('Partial: segments / intermediate fields with exactly one element are excluded by hypothesis (open known finding '
               'KF-C03-one-pixel-segment); propagation is modelled for tilt-free fields without output mask (tilt and masks: C04, C02). '
               'Trusted: Lean kernel, py2lean subset semantics, NumPy semantics as modelled, np.dot sums, generator coverage.')
 TECHNIQUE = 'Lean 4 proof (omega/induction/Finset sums) over translator-regenerated kernels + hand model with differential correspondence'
-GEN = ['Extent', 'FieldIdx', 'Helper', 'Window', 'PlanePhase']
+GEN = ['Extent', 'FieldIdx', 'Helper', 'Window', 'PlanePhase', 'PropagateMeta']
 OPS = ['C07', 'C03']
-RULE = ('cases: random supports on shapes 2..7, partitions into 1..5 segments (random labels = overlapping bounding boxes in half the cases, '
-        'bands otherwise), chains of 1..3 masked Pupil planes with scalar/array amplitude and OPD, each plane described segmented or '
+RULE = ('cases: random supports on shapes 2..10, partitions into 1..9 segments (random labels = overlapping bounding boxes in half the cases, '
+        'bands otherwise), chains of 1..3 masked planes (Pupil; also Image or plain Plane chains) with scalar/array amplitude and OPD, each plane described segmented or '
         'monolithic, then propagate_dft with random per-axis sampling (mixed Tilt/segmented chains also with an output mask); plus 3..5 tilted segments (OPD ramps fitted by fit_tilt) propagated with prop_shape < shape so that the per-segment output fields overlap as chains, oversampling 1..3, output shape and prop_shape; exact stream '
         '(no propagation, Gaussian-integer data) and float stream. distinct = canonical (shapes, partition, attribute kinds, propagation '
         'setting) signature; non-trivial = some plane has at least two segments')
@@ -33,8 +33,9 @@ TRUSTED = ['NumPy slicing/broadcasting in Plane.multiply and util.boundary (mode
            'np.dot / einsum in fourier.dft2 compute the sums of products (Model/Fourier.lean; C01 checks dft2 itself)',
            'np.exp(1j*t) = cos t + i sin t']
 UNPROVEN = [
-            'the end-to-end theorems take a fresh wavefront and planes with array masks, and a shift common to all fields (shared Tilt planes, Wavefront(tilt=): common_tilts_plane/common_tilts_tilt); '
-            'per-segment fitted tilts (different shifts per field: the chain-overlap class), interleaving of Tilt planes inside the SplitPlane chain, and propagate_fft are covered by correspondence (c03.chain over builderB Model/Propagate.lean, Model/Tilt.lean) and oracle only',
+            'per-segment FITTED tilts (fit_tilt: a different shift per field, windows that crop each segment differently) have no segmented = monolithic theorem — with prop_shape < shape the two descriptions are genuinely different computations; that class is covered by correspondence (c03.chain over builderB Model/Propagate.lean, Model/Tilt.lean) and by the oracle (coherent sum; windowed chip = window of the full propagation), tilt-as-metadata = tilt-in-OPD is C04',
+            'the end-to-end theorems start from a fresh wavefront and use planes with array masks (scalar-mask planes inside the chain: plane_multiply_total only)',
+            'planes re-used after the amplitude/OPD setters and copy(): oracle only; rescale/resample of a plane is C17',
             'partitions containing a segment (or producing an intermediate field) with exactly one element (known finding KF-C03-one-pixel-segment)']
 ASSUMPTIONS = ['every segment bounding box and every intersection of boxes along the chain has more than one element (ExtOK: a condition on the bounding slices and shapes of the input, used by segmented_eq_monolithic_end_to_end)',
                'segment masks of one plane have pairwise disjoint supports']
